@@ -26,6 +26,10 @@ def run(tier, argv):
     rv = vlib.tlc(work, "GenGraph", "GenGraph.cfg", consts={"NTypes": "2", "Level": "1", "KeysOptDefault": "TRUE", "OptionalOnlyByRule": "TRUE"}, allow_violation=True, timeout=1200)
     if not rv.violation:
         raise vlib.Infra("vacuous: switch OptionalOnlyByRule no longer violates MeshModelAgrees")
+    # inheritance graphs and key-shortcut properties as edges (fixed types, definite verdicts)
+    raw5 = work.path("gen5.txt")
+    r5 = vlib.tlc(work, "GenGraph", "GenGraph.cfg", consts={"NTypes": "1", "Level": "5"}, to_file=raw5, timeout=3000, heap="8g")
+    rep.add_tlc(r5, "GenGraph Level 5: a parent inherited twice / along two paths, an allOf cycle, key-shortcut properties as required and optional edges")
     raw4 = work.path("gen4.txt")
     r4 = vlib.tlc(work, "GenGraph", "GenGraph.cfg", consts={"NTypes": "2" if quick else "3", "Level": "4"}, to_file=raw4, timeout=6000, heap="16g")
     rep.add_tlc(r4, "GenGraph key-shortcut family (used names, termination)")
@@ -37,7 +41,7 @@ def run(tier, argv):
     n = 0
     wants = {}
     with open(cases, "w") as f:
-        for src in [raw, work.path("gen2.txt"), rawo, work.path("gen4.txt")] + ([work.path("gen3.txt")] if not quick else []):
+        for src in [raw, work.path("gen2.txt"), rawo, raw5, work.path("gen4.txt")] + ([work.path("gen3.txt")] if not quick else []):
             for l in vlib.tagged_file(src, "@@CASE"):
                 f.write(l + "\n")
                 n += 1
